@@ -633,3 +633,16 @@ Proof.
   intros Heq. inversion Heq; subst.
   destruct (get_or_insert_cap_some cap s lvl ch _ Ec) as [-> _]. reflexivity.
 Qed.
+
+(** what [intact] says, spelled out *)
+Theorem intact_elim : forall s s', intact s s' ->
+  s_handles s' = s_handles s /\
+  s_v2l s' = s_v2l s /\ s_l2v s' = s_l2v s /\ s_terms s' = s_terms s /\
+  (forall id nd, find_node s id = Some nd -> find_node s' id = Some nd) /\
+  (forall r, ref_ok s r -> ref_ok s' r /\ forall k c0, semk s' k r c0 = semk s k r c0) /\
+  (forall h, In h (s_handles s) -> forall c0, sem_edge s' (snd h) c0 = sem_edge s (snd h) c0) /\
+  (forall id, find_node s id = None -> ~ reachable s' (handle_refs s') (RN id)) /\
+  (forall r, reachable s' (handle_refs s') r <-> reachable s (handle_refs s) r).
+Proof.
+  intros s s' [A [B1 [B2 B3]] C0 D E0 F G]. repeat (split; [assumption|]). assumption.
+Qed.
